@@ -11,6 +11,9 @@ CLAIMED = {
             'Every obligation is a solver verdict over ALL bit patterns of the input type (no sampling): float->half against a value-based RNE reference and against CBMC\'s native binary16 type; half->float for the bit-shift build and (sliced) for every entry of the shipped table; round trips; the C++ constructor/cast via IR->C translation. Exhaustive by solver, loop-free code, so the bound is only the type width.',
             'Trusted: CBMC C front end + SAT back ends, clang-14 -O1 for the C++ spellings, vf/ll2c.py (validated every run against the native build), the reference oracle in harness/c01/half_c.c. F16C hardware path is outside (see C02).', '3/C01'),
 }
+CLAIMED['C03'] = ('ir2c', 'bounded model checking (CBMC/SAT) of the clang IR of class half translated to C, all operand bit patterns; conversions abstracted as uninterpreted pure callees for the arithmetic obligations',
+    'Solver verdicts over all 2^16 patterns (classification, limits, unary minus, round(n) for every n) and all 2^32 / 2^48 operand pairs (compound arithmetic == f2h(h2f(a) op rhs), compositional with C01). Text round trip and the halfFunction fill loop are stated as not decided.',
+    'Trusted: clang-14 -O1, vf/ll2c.py (validated each run against g++ and clang++ builds of the real code), CBMC. Arithmetic obligations treat the two conversion functions (and, for * and /, the float operation) as uninterpreted functions on both sides.', '3/C03')
 NOT_YET = 'check not built yet in this working session (planned in DESIGN.md section 3); no claim is made'
 NA = {}
 
